@@ -8,6 +8,8 @@ package vos
 import (
 	"io/fs"
 	"os"
+
+	"github.com/jhalter/mobius/verifh/vrt"
 )
 
 type (
@@ -42,6 +44,8 @@ type Step struct {
 var Hook func(Step)
 
 func step(op, path, arg string) {
+	// a file-mutating system call is visible to other threads: scheduling point
+	vrt.Point("fs-"+op, false, nil)
 	if Hook != nil {
 		Hook(Step{op, path, arg})
 	}
